@@ -38,6 +38,10 @@ ARMS = [
     ("stat", "mv_normal_reparam", {}),
     ("stat", "normal_reparam", {}),
     ("stat", "mv_normal_diag_reparam", {}),
+    # normal_reparam called with vector loc / scale: its `sample` draws independent components,
+    # so the site is an independent-normal vector (same reference as mv_normal_diag_reparam)
+    ("stat", "mv_normal_diag_reparam", {"as_normal_reparam": True}),
+    ("det", "mv_normal_diag_reparam", {"as_normal_reparam": True}),
     ("stat", "uniform", {}),
     ("stat", "normal_reinforce", {"guarded": True}),
     ("stat", "flip_reinforce", {"guarded": True}),
@@ -175,6 +179,8 @@ class Gen:
             s["args"] = [self.loc(), self.pos()]
         elif kind == "mv_normal_diag_reparam":
             s["args"] = [[self.loc(), self.loc()], [self.pos(), self.pos()]]
+            if opt.get("as_normal_reparam"):
+                s["prim"] = "normal_reparam"
         elif kind == "mv_normal_reparam":
             if opt.get("const_cov"):
                 a, b = self.rng.uniform(0.5, 1.5), self.rng.uniform(0.5, 1.5)
@@ -414,7 +420,7 @@ def build_source(prog, tap=None):
 
         def call(s):
             kind = s["kind"]
-            prim = getattr(A, kind)
+            prim = getattr(A, s.get("prim", kind))
             a = s["args"]
             if kind in ("mv_normal_diag_reparam",):
                 args = [jnp.stack([jnp.asarray(em(x), dtype=f32) for x in a[0]]), jnp.stack([jnp.asarray(em(x), dtype=f32) for x in a[1]])]
